@@ -132,8 +132,8 @@ TemporalArith(op, a, b) ==
 
 (* binary arithmetic on evaluated operands (item sequences) *)
 ArithBin(op, l, r) ==
-  IF Len(l) > 1 \/ Len(r) > 1 THEN EAny
-  ELSE IF Len(l) = 0 \/ Len(r) = 0 THEN EOk(<<>>)
+  IF Len(l) = 0 \/ Len(r) = 0 THEN EOk(<<>>)        \* an empty operand gives empty, whatever the other operand is (C07)
+  ELSE IF Len(l) > 1 \/ Len(r) > 1 THEN EAny
   ELSE LET a == Val(l[1])
            b == Val(r[1])
        IN IF IsNum(a) /\ IsNum(b) THEN (IF op = "/" THEN EAny        \* any decimal within the 16-place tolerance is permitted
